@@ -22,7 +22,7 @@ sh("git checkout -- .")
 r0 = sh("git apply _seed/patch.diff")
 assert r0.returncode == 0, "cannot apply patch: " + r0.stderr
 cur = sh("git diff").stdout
-open("/tmp/_cur.diff", "w").write(cur)
+open(os.path.join(wt, "_seed", "_cur.diff"), "w").write(cur)
 log = {}
 r = sh("cargo test --workspace --no-fail-fast --offline 2>&1 | grep -E '^test result|FAILED|error' ")
 fails = [l for l in r.stdout.splitlines() if "FAILED" in l or l.startswith("error")]
@@ -36,7 +36,7 @@ r1 = sh(cmd + " 2>&1 | tail -40")
 rc1 = sh(cmd + " >/dev/null 2>&1").returncode
 log["demo_with_change"] = {"exit": rc1, "tail": r1.stdout[-1500:]}
 print("demo with change: exit", rc1)
-assert sh("git apply -R /tmp/_cur.diff").returncode == 0
+assert sh("git apply -R _seed/_cur.diff").returncode == 0
 r2 = sh(cmd + " 2>&1 | tail -15")
 rc2 = sh(cmd + " >/dev/null 2>&1").returncode
 log["demo_without_change"] = {"exit": rc2, "tail": r2.stdout[-800:]}
